@@ -144,7 +144,7 @@ def gen_cases(tier, seed):
     for k in range(4 if tier == "quick" else 24):
         runs = rnd.sample(cgood, 3)
         runs = [runs[0], runs[1], runs[0], runs[2], (runs[1][0], runs[0][1])]
-        hist.append({"kind": "history", "history_kind": "one_runner_object", "runs": [{"iso": i, "opts": copy.deepcopy(o)} for i, o in runs], "share_opts": False, "one_runner": True,
+        hist.append({"kind": "history", "history_kind": "one_runner_object", "runs": [{"iso": i, "opts": copy.deepcopy(o)} for i, o in runs], "share_opts": False, "one_runner": True, "save_all": k % 2 == 0,
                      "id": "one_runner#%d" % k})
     isos = workload.all_isos()
     for k in range(4 if tier == "quick" else 24):
@@ -153,7 +153,7 @@ def gen_cases(tier, seed):
             o = workload.base_country(scenario=rnd.choice(["no_resilient_foods", "all_resilient_foods"]))
         o = {kk: v for kk, v in o.items() if not kk.endswith("_head")}
         sel = rnd.sample(isos, rnd.choice([2, 3, 4]))
-        hist.append({"kind": "history", "history_kind": "multi_country_batch", "batch": sel, "opts": copy.deepcopy(o), "runs": [], "id": "batch#%d" % k})
+        hist.append({"kind": "history", "history_kind": "multi_country_batch", "batch": sel, "opts": copy.deepcopy(o), "runs": [], "save_all": k % 2 == 0, "id": "batch#%d" % k})
     return hist
 
 
@@ -173,7 +173,7 @@ def fresh(run):
     d = tempfile.mkdtemp(prefix="allfed_verif_fresh_")
     try:
         cp, op = os.path.join(d, "case.json"), os.path.join(d, "out.json")
-        json.dump({"kind": "pipeline", "iso": run["iso"], "opts": run["opts"], "tag": "fresh"}, open(cp, "w"))
+        json.dump({"kind": "pipeline", "iso": run["iso"], "opts": run["opts"], "tag": "fresh", "save_all": bool(run.get("save_all"))}, open(cp, "w"))
         envv = dict(os.environ)
         envv["PYTHONHASHSEED"] = "0"
         envv["PYTHONPATH"] = env.REPO + os.pathsep + env.VERIF_ROOT
@@ -211,7 +211,8 @@ def run_batch(case):
     opts = copy.deepcopy(case["opts"])
     with contextlib.redirect_stdout(io.StringIO()):
         out = ScenarioRunnerNoTrade().run_model_no_trade(title="batch", create_pptx_with_all_countries=False, show_country_figures=False, show_map_figures=False,
-                                                        add_map_slide_to_pptx=False, scenario_option=opts, countries_list=list(case["batch"]), return_results=True)
+                                                        add_map_slide_to_pptx=False, scenario_option=opts, countries_list=list(case["batch"]), return_results=True,
+                                                        save_all_results=bool(case.get("save_all")))
     results = out[3]
     import csv
 
@@ -223,10 +224,20 @@ def run_batch(case):
             viol.append({"mech": "batch_result_missing", "msg": "batch %s: no result for %s" % (case["batch"], iso), "data": {"iso": iso}})
             continue
         parts = interp_parts(res)
-        ref = fresh({"iso": iso, "opts": case["opts"]})
+        ref = fresh({"iso": iso, "opts": case["opts"], "save_all": bool(case.get("save_all"))})
         if ref is None:
             return {"status": "inconclusive", "reason": "fresh-process reference run did not report", "viol": [], "obs": {}}
-        diffp = sorted(p for p in ("headline", "interpreter_series", "meat_and_herd_dictionaries") if ref["parts"].get(p) != parts.get(p))
+        cmp_parts = ["headline", "interpreter_series", "meat_and_herd_dictionaries"]
+        if case.get("save_all"):
+            import hashlib
+
+            from vlib import env as _env
+
+            sf = capture.saved_files(_env.scratch_dir(), "batch", names[iso])
+            # (in the single-country reference the files carry the same "<country>_<kind>.csv" names after the title)
+            parts["saved_files"] = hashlib.sha256(repr(sorted(sf.items())).encode()).hexdigest()[:16] + ":%d" % len(sf)
+            cmp_parts.append("saved_files")
+        diffp = sorted(p for p in cmp_parts if ref["parts"].get(p) != parts.get(p))
         seq.append((iso, None, parts.get("headline")))
         if diffp:
             viol.append({"mech": "result_depends_on_history", "msg": "batch %s: %s differs from the same run alone in a fresh process in %s (headline %s vs %s)" % (
@@ -257,7 +268,7 @@ def run_case(case, tier):
             opts_obj = run["opts"]
         before = state_snapshot()
         opts_before = copy.deepcopy(opts_obj)
-        tr = capture.run_pipeline({"kind": "pipeline", "iso": run["iso"], "opts": opts_obj, "tag": "h%d" % k}, share_opts=bool(case.get("share_opts")),
+        tr = capture.run_pipeline({"kind": "pipeline", "iso": run["iso"], "opts": opts_obj, "tag": "h%d" % k, "save_all": bool(case.get("save_all")) and run["iso"] != "WOR"}, share_opts=bool(case.get("share_opts")),
                                   runner=one_runner if run["iso"] != "WOR" else None)
         after = state_snapshot()
         if opts_obj != opts_before:
@@ -268,7 +279,7 @@ def run_case(case, tier):
         full, parts = digest.run_digest(tr)
         seq.append({"iso": run["iso"], "digest": full, "parts": parts, "failed": tr.error_type, "key": key})
         if key not in refs:
-            refs[key] = fresh(run)
+            refs[key] = fresh(dict(run, save_all=bool(case.get("save_all")) and run["iso"] != "WOR"))
     nonfail = 0
     for k, s in enumerate(seq):
         ref = refs[s["key"]]
